@@ -153,4 +153,220 @@ Proof.
   - rewrite (factb_idx_irrel _ (fun _ _ => None) c Ef). apply H2; assumption.
 Qed.
 
+
+(* ---------- preservation by the encoder's steps ---------- *)
+
+Lemma einv_queue_solvable st so st' w : EInv st -> queue_solvable st so = (st', w) -> EInv st'.
+Proof.
+  intros H. unfold queue_solvable. destruct (mem_so so (e_sols st)); intro E; inversion E; subst; [exact H|].
+  apply einv_marks. exact H.
+Qed.
+
+Lemma einv_queue_package st n st' w : EInv st -> queue_package st n = (st', w) -> EInv st'.
+Proof.
+  intros H. unfold queue_package. destruct (memN n (e_pkgs st)); intro E; inversion E; subst; [exact H|].
+  apply einv_marks. exact H.
+Qed.
+
+Lemma einv_queue_packages ns : forall st st' w, EInv st -> queue_packages st ns = (st', w) -> EInv st'.
+Proof.
+  induction ns as [|n ns IH]; intros st st' w H; simpl.
+  - intro E. inversion E. subst. exact H.
+  - destruct (queue_package st n) as [st1 w1] eqn:E1. destruct (queue_packages st1 ns) as [st2 w2] eqn:E2.
+    intro E. inversion E. subst. eapply IH; [|exact E2]. eapply einv_queue_package; eauto.
+Qed.
+
+Lemma einv_queue_solvables sos : forall st st' w, EInv st -> queue_solvables st sos = (st', w) -> EInv st'.
+Proof.
+  induction sos as [|so sos IH]; intros st st' w H; simpl.
+  - intro E. inversion E. subst. exact H.
+  - destruct (queue_solvable st so) as [st1 w1] eqn:E1. destruct (queue_solvables st1 sos) as [st2 w2] eqn:E2.
+    intro E. inversion E. subst. eapply IH; [|exact E2]. eapply einv_queue_solvable; eauto.
+Qed.
+
+Lemma einv_reveal falses cands : forall st st' w, EInv st -> reveal U falses st cands = (st', w) -> EInv st'.
+Proof.
+  induction cands as [|c cands IH]; intros st st' w H; simpl.
+  - intro E. inversion E. subst. exact H.
+  - destruct (if available U (e_cache st) c && negb (memN c falses) then queue_solvable st (Some c) else (st, []))
+      as [st1 w1] eqn:E1.
+    destruct (reveal U falses (register U st1 c) cands) as [st3 w3] eqn:E3.
+    intro E. inversion E. subst. eapply IH; [|exact E3]. apply einv_register.
+    destruct (available U (e_cache st) c && negb (memN c falses)).
+    + eapply einv_queue_solvable; eauto.
+    + inversion E1. subst. exact H.
+Qed.
+
+Lemma lits_eqb_refl l : lits_eqb l l = true.
+Proof. apply lits_eqb_eq. reflexivity. Qed.
+Lemma nll_eqb_refl l : nll_eqb l l = true.
+Proof. apply nll_eqb_eq. reflexivity. Qed.
+
+Lemma existsb_req_In r l : In r l -> existsb (req_eqb r) l = true.
+Proof. intro H. apply existsb_exists. exists r. split; [exact H | apply req_eqb_eq; reflexivity]. Qed.
+
+Lemma parent_req_ok so r : In r (reqs_of (deps_of U P so)) -> req_parent_ok U P (so_var so) r = true.
+Proof.
+  destruct so as [s|]; simpl; intro H; apply existsb_req_In.
+  - unfold dep_reqs. destruct (p_deps U s); exact H.
+  - exact H.
+Qed.
+
+Lemma parent_con_ok so v : In v (cons_of (deps_of U P so)) -> con_parent_ok U P (so_var so) v = true.
+Proof.
+  destruct so as [s|]; simpl; intro H; apply memN_In.
+  - unfold dep_cons. destruct (p_deps U s); exact H.
+  - exact H.
+Qed.
+
+Lemma fact_requires idx so r : In r (reqs_of (deps_of U P so)) -> factb U P idx (mk_requires U so r) = true.
+Proof.
+  intro H. unfold factb, mk_requires. cbn [ck cl_lits].
+  rewrite (parent_req_ok so r H), nll_eqb_refl, lits_eqb_refl. reflexivity.
+Qed.
+
+Lemma fact_constrains idx so f v :
+  In v (cons_of (deps_of U P so)) -> In f (nonmatching U v) -> factb U P idx (mk_constrains so f v) = true.
+Proof.
+  intros H Hf. unfold factb, mk_constrains. cbn [ck cl_lits].
+  rewrite (parent_con_ok so v H), lits_eqb_refl. apply memN_In in Hf. rewrite Hf. reflexivity.
+Qed.
+
+Lemma fact_excluded_list idx n x : In x (p_excluded U n) -> factb U P idx (mk_excluded x) = true.
+Proof.
+  intro H. unfold factb, mk_excluded. cbn [ck cl_lits]. unfold Spec.name.
+  rewrite (wf_excl_name U HW n x H). apply memN_In in H. rewrite H, lits_eqb_refl. reflexivity.
+Qed.
+
+Lemma fact_excluded_unknown idx x : p_deps U x = Unknown -> factb U P idx (mk_excluded x) = true.
+Proof.
+  intro H. unfold factb, mk_excluded. cbn [ck cl_lits]. rewrite H. cbn [is_unknown].
+  rewrite orb_true_r, lits_eqb_refl. reflexivity.
+Qed.
+
+Lemma fact_lock idx n l o :
+  p_locked U n = Some l -> In o (p_cands U n) -> N.eqb o l = false -> factb U P idx (mk_lock l o) = true.
+Proof.
+  intros Hl Ho Hne. unfold factb, mk_lock. cbn [ck cl_lits]. unfold Spec.name.
+  rewrite (wf_cand_name U HW n o Ho), Hl, N.eqb_refl, Hne, lits_eqb_refl.
+  apply memN_In in Ho. rewrite Ho. reflexivity.
+Qed.
+
+Lemma queue_packages_tasks ns : forall st st' w, queue_packages st ns = (st', w) -> Forall task_ok w.
+Proof.
+  induction ns as [|n ns IH]; intros st st' w; simpl.
+  - intro E. inversion E. constructor.
+  - destruct (queue_package st n) as [st1 w1] eqn:E1. destruct (queue_packages st1 ns) as [st2 w2] eqn:E2.
+    intro E. inversion E. subst. apply Forall_app. split; [|eapply IH; eauto].
+    unfold queue_package in E1. destruct (memN n (e_pkgs st)); inversion E1; repeat constructor.
+Qed.
+
+Lemma reveal_tasks falses cands : forall st st' w, reveal U falses st cands = (st', w) -> Forall task_ok w.
+Proof.
+  induction cands as [|x xs IH]; intros st st' w; simpl.
+  - intro E. inversion E. constructor.
+  - destruct (if available U (e_cache st) x && negb (memN x falses) then queue_solvable st (Some x) else (st, []))
+      as [st1 w1] eqn:E1.
+    destruct (reveal U falses (register U st1 x) xs) as [st3 w3] eqn:E3. intro E. inversion E. subst.
+    apply Forall_app. split; [|eapply IH; eauto].
+    destruct (available U (e_cache st) x && negb (memN x falses)); [|inversion E1; constructor].
+    unfold queue_solvable in E1. destruct (mem_so (Some x) (e_sols st)); inversion E1; repeat constructor.
+Qed.
+
+Lemma einv_run_one falses st t st' w :
+  EInv st -> task_ok t -> run_one U P falses st t = (st', w) -> EInv st' /\ Forall task_ok w.
+Proof.
+  intros H Ht. destruct t as [so|n|so r|so v]; cbn [run_one].
+  - (* TDeps *)
+    set (st1 := match so with None => st | Some s => let '(c, k) := req_deps (e_cache st) s in add_calls st c k end).
+    assert (H1 : EInv st1).
+    { unfold st1. destruct so as [s|]; [|exact H]. destruct (req_deps (e_cache st) s) as [c k]. apply einv_cache. exact H. }
+    destruct (deps_of U P so) as [rs cs|] eqn:Ed.
+    + destruct (queue_packages st1 (map (p_vs_name U) (flat_map (req_vss U) rs ++ cs))) as [st2 w2] eqn:E2.
+      intro E. inversion E. subst. split; [eapply einv_queue_packages; eauto|].
+      apply Forall_app. split.
+      * eapply queue_packages_tasks; eauto.
+      * apply Forall_app. split; apply Forall_forall; intros t Hin; apply in_map_iff in Hin;
+          destruct Hin as [x [Ex Hx]]; subst t; simpl; rewrite Ed; exact Hx.
+    + intro E. inversion E. subst. split; [|constructor].
+      apply einv_add_clauses; [exact H1|]. intros c Hc. destruct so as [s|]; [|destruct Hc].
+      destruct Hc as [Hc|[]]. subst c. split; [reflexivity|]. apply fact_excluded_unknown. exact Ed.
+  - (* TCands *)
+    destruct (req_cands_of (e_cache st) n) as [c k]. intro E. inversion E. subst. split; [|constructor].
+    apply einv_add_clauses; [apply einv_cache; exact H|]. intros c0 Hc. apply in_app_or in Hc. destruct Hc as [Hc|Hc].
+    + destruct (p_locked U n) as [l|] eqn:El; [|destruct Hc]. apply in_map_iff in Hc. destruct Hc as [o [Eo Ho]].
+      subst c0. apply filter_In in Ho. destruct Ho as [Ho Hne]. apply negb_true_iff in Hne.
+      split; [reflexivity|]. eapply fact_lock; eauto.
+    + apply in_map_iff in Hc. destruct Hc as [x [Ex Hx]]. subst c0. split; [reflexivity|].
+      eapply fact_excluded_list; eauto.
+  - (* TReq *)
+    destruct (req_sorted_all U (e_cache st) (req_vss U r)) as [c k].
+    destruct (reveal U falses (add_calls st c k) (req_cands U r)) as [st2 w2] eqn:E2.
+    intro E. inversion E. subst. split.
+    + apply einv_add_clauses; [eapply einv_reveal; [|exact E2]; apply einv_cache; exact H|].
+      intros c0 [Hc|[]]. subst c0. split; [reflexivity|]. apply fact_requires. exact Ht.
+    + eapply reveal_tasks; eauto.
+  - (* TCon *)
+    destruct (req_nonmatching U (e_cache st) v) as [c k]. intro E. inversion E. subst. split; [|constructor].
+    apply einv_add_clauses; [apply einv_cache; exact H|]. intros c0 Hc. apply in_map_iff in Hc.
+    destruct Hc as [f [Ef Hf]]. subst c0. split; [reflexivity|]. apply fact_constrains; assumption.
+Qed.
+
+Lemma einv_enc_loop fuel falses : forall st work st',
+  EInv st -> Forall task_ok work -> enc_loop U P fuel falses st work = Some st' -> EInv st'.
+Proof.
+  induction fuel as [|f IH]; intros st work st' H Hw; destruct work as [|t rest]; simpl;
+    try (intro E; inversion E; subst; exact H); try discriminate.
+  destruct (run_one U P falses st t) as [st1 w1] eqn:E1. intro E.
+  inversion Hw as [|? ? Ht Hrest]. subst.
+  destruct (einv_run_one falses st t st1 w1 H Ht E1) as [H1 Hw1].
+  eapply IH; [exact H1 | | exact E]. apply Forall_app. split; assumption.
+Qed.
+
+Lemma queue_solvables_tasks sos : forall st st' w, queue_solvables st sos = (st', w) -> Forall task_ok w.
+Proof.
+  induction sos as [|so sos IH]; intros st st' w; simpl.
+  - intro E. inversion E. constructor.
+  - destruct (queue_solvable st so) as [st1 w1] eqn:E1. destruct (queue_solvables st1 sos) as [st2 w2] eqn:E2.
+    intro E. inversion E. subst. apply Forall_app. split; [|eapply IH; eauto].
+    unfold queue_solvable in E1. destruct (mem_so so (e_sols st)); inversion E1; repeat constructor.
+Qed.
+
+Lemma einv_encode fuel falses st sos st' : EInv st -> encode U P fuel falses st sos = Some st' -> EInv st'.
+Proof.
+  intro H. unfold encode. destruct (queue_solvables st sos) as [st1 w] eqn:E1. intro E.
+  eapply einv_enc_loop; [eapply einv_queue_solvables; eauto | eapply queue_solvables_tasks; eauto | exact E].
+Qed.
+
+Lemma einv_enc_solve fuel evs : forall st tr st', EInv st -> enc_solve U P fuel st tr evs = Some st' -> EInv st'.
+Proof.
+  induction evs as [|e evs IH]; intros st tr st' H; simpl.
+  - intro E. inversion E. subst. exact H.
+  - destruct e as [sos|s|e].
+    + destruct (encode U P fuel (falses_of tr) st sos) as [st1|] eqn:E1; [|discriminate].
+      apply IH. eapply einv_encode; eauto.
+    + apply IH. apply einv_register. exact H.
+    + apply IH. exact H.
+Qed.
+
+(* T1: for every provider, problem, cache contents, trail history and sequence of
+   encoder invocations, every clause the encoder model has added is a fact *)
+Theorem enc_facts fuel c evs st :
+  enc_solve U P fuel (estate0 c) [] evs = Some st ->
+  forall x, In x (e_db st) -> factb U P (trk_idx (e_trk st)) x = true.
+Proof.
+  intros E. apply einv_facts. eapply einv_enc_solve; [apply einv0 | exact E].
+Qed.
+
+
+(* T1': the encoder never excludes a valid selection: every clause it adds is
+   true in the assignment of every valid selection (Unsolvable can only be
+   reported when there is none) *)
+Theorem enc_sound fuel c evs st S :
+  enc_solve U P fuel (estate0 c) [] evs = Some st -> valid U P S [] ->
+  forall x, In x (e_db st) -> cl_true (a_sel U (trk_idx (e_trk st)) S) (cl_lits x) = true.
+Proof.
+  intros E Hv x Hx. apply (E1 U P (trk_idx (e_trk st)) HW S x Hv). eapply enc_facts; eauto.
+Qed.
+
 End Proofs.
